@@ -1,0 +1,13 @@
+//go:build verif
+
+package aggchainproofclient
+
+import (
+	aggkitProverV1Proto "buf.build/gen/go/agglayer/provers/protocolbuffers/go/aggkit/prover/v1"
+	"github.com/agglayer/aggkit/aggsender/types"
+)
+
+// VerifConvertAggchainProofRequest exposes convertAggchainProofRequestToGrpcRequest to the verification harness.
+func VerifConvertAggchainProofRequest(req *types.AggchainProofRequest) *aggkitProverV1Proto.GenerateAggchainProofRequest {
+	return convertAggchainProofRequestToGrpcRequest(req)
+}
